@@ -735,6 +735,13 @@ class Table(Vector):
 				raise IndexError(f"Table row index {key} out of range (table has {n_rows} rows)")
 			return Row(self, key)
 
+		if (isinstance(key, list) or (isinstance(key, Vector) and key.schema() is None)) and len(key) == 0:
+			# the empty list and an untyped empty vector (Vector([]): a mask or index vector computed
+			# from no rows / no hits) select no row, as they do on every column
+			return Vector(tuple(x[key] for x in self._underlying),
+				dtype = self._dtype,
+				name=self._name
+			)
 		if isinstance(key, Vector) and key.schema() is not None and key.schema().kind == bool and not key.schema().nullable:
 			# (a real check, as for a vector: an assert vanishes under python -O)
 			if len(self) != len(key):
